@@ -178,7 +178,11 @@ func expected(s CtxState) proj {
 	return p
 }
 
-func replay(idx int, beh []Step) {
+// wrapped is a user-defined FContext (a decorator embedding the interface): frugal.Clone must take its
+// generic path for it, and the result must still be an independent context with a new op id.
+type wrapped struct{ frugal.FContext }
+
+func replay(idx int, beh []Step, wrap bool) {
 	// the op-id counter is global: this driver is the only creator, so the k-th allocation is base+k
 	probe := frugal.NewFContext("probe")
 	base := opOf(probe)
@@ -187,14 +191,22 @@ func replay(idx int, beh []Step) {
 		switch s.A {
 		case "New":
 			ctxs[s.C] = frugal.NewFContext("cid-" + s.V)
+			if wrap {
+				ctxs[s.C] = wrapped{ctxs[s.C]}
+			}
 		case "Clone":
 			ctxs[s.C] = frugal.Clone(ctxs[s.S])
+			if wrap {
+				ctxs[s.C] = wrapped{ctxs[s.C]}
+			}
 		case "AddReq":
 			ctxs[s.C].AddRequestHeader(real(s.N), real(s.V))
 		case "AddResp":
 			ctxs[s.C].AddResponseHeader(real(s.N), real(s.V))
 		case "AddEph":
-			ctxs[s.C].(frugal.FContextWithEphemeralProperties).AddEphemeralProperty(real(s.N), real(s.V))
+			if e, ok := ctxs[s.C].(frugal.FContextWithEphemeralProperties); ok {
+				e.AddEphemeralProperty(real(s.N), real(s.V))
+			}
 		case "SetTimeout":
 			ms, _ := strconv.Atoi(s.V)
 			ctxs[s.C].SetTimeout(time.Duration(ms) * time.Millisecond)
@@ -232,6 +244,10 @@ func replay(idx int, beh []Step) {
 			id, _ := strconv.Atoi(name[1:])
 			got := project(ctxs[id], base)
 			exp := expected(want)
+			if wrap {
+				// a decorated context has no ephemeral properties
+				got.Eph, exp.Eph = map[string]string{}, map[string]string{}
+			}
 			if !reflect.DeepEqual(got, exp) {
 				field := "state"
 				switch {
@@ -250,7 +266,11 @@ func replay(idx int, beh []Step) {
 				case got.RespOp != exp.RespOp:
 					field = "response-opid"
 				}
-				violate("replay/"+s.A+"/"+field, fmt.Sprintf("behaviour %d after step %d (%s c=%d s=%d %q=%q): context %s is %+v, the specification says %+v", idx, i, s.A, s.C, s.S, s.N, s.V, name, got, exp), beh[:i+1])
+				pre := "replay/"
+				if wrap {
+					pre = "replay-decorated-context/"
+				}
+				violate(pre+s.A+"/"+field, fmt.Sprintf("behaviour %d after step %d (%s c=%d s=%d %q=%q): context %s is %+v, the specification says %+v", idx, i, s.A, s.C, s.S, s.N, s.V, name, got, exp), beh[:i+1])
 				return
 			}
 		}
@@ -277,7 +297,10 @@ func concurrent(workers, perWorker int) {
 				s.(frugal.FContextWithEphemeralProperties).AddEphemeralProperty(k, i)
 				s.RequestHeader(k)
 				s.ResponseHeaders()
+				s.RequestHeaders()
+				s.SetTimeout(time.Duration(100+w) * time.Millisecond)
 				s.Timeout()
+				s.CorrelationID()
 				c := frugal.Clone(s)
 				ids[w] = append(ids[w], opOf(c))
 				c.AddRequestHeader("clone-only", "1")
@@ -564,7 +587,10 @@ func main() {
 				fmt.Fprintln(os.Stderr, "bad behaviour:", err)
 				os.Exit(2)
 			}
-			replay(i, beh)
+			replay(i, beh, false)
+			var beh2 []Step
+			json.Unmarshal(sc.Bytes(), &beh2)
+			replay(i, beh2, true)
 			if len(res.Samples) < 2 && len(beh) > 6 {
 				res.Samples = append(res.Samples, json.RawMessage(append([]byte(nil), sc.Bytes()...)))
 			}
